@@ -20,7 +20,7 @@ EphInit(N, Unrelated, Schemas) ==
       born \in {[a \in AllAgents |-> 0], [a \in AllAgents |-> IF a = "t1" THEN 2 ELSE 0]},
       schema \in Schemas :
      InitWith([agents |-> AllAgents, imported |-> imp, targets |-> {"t1"}, epochs |-> ep, rows |-> rows, obs |-> obs,
-               dup |-> {}, schema |-> schema, near |-> {}, nsteps |-> N, born |-> born,
+               dup |-> {}, schema |-> schema, near |-> {}, nsteps |-> N, born |-> born, gone |-> [a \in AllAgents |-> N + 1],
                engines |-> {1}, sensorOf |-> [s \in {"s1"} |-> 1], tracks |-> [e \in {1} |-> {"t1"}],
                site |-> [s \in {"s1"} |-> 1]])
 
@@ -34,7 +34,7 @@ NearInit ==
    \E imp \in {{"t1"}, {"s1"}, {"t1", "s1"}}, rows \in SUBSET (AllAgents \X ep), near \in SUBSET NearU,
       born \in {[a \in AllAgents |-> 0], [a \in AllAgents |-> IF a = "t1" THEN 2 ELSE 0]} :
      InitWith([agents |-> AllAgents, imported |-> imp, targets |-> {"t1"}, epochs |-> ep, rows |-> rows, obs |-> {},
-               dup |-> {}, schema |-> "full", near |-> near, nsteps |-> 2, born |-> born,
+               dup |-> {}, schema |-> "full", near |-> near, nsteps |-> 2, born |-> born, gone |-> [a \in AllAgents |-> 3],
                engines |-> {1}, sensorOf |-> [s \in {"s1"} |-> 1], tracks |-> [e \in {1} |-> {"t1"}],
                site |-> [s \in {"s1"} |-> 1]])
 
@@ -44,19 +44,26 @@ ObsB == ({1} \X TB \X SB) \cup {<<2, "t1", "s2">>, <<2, "t2", "s1">>}
 DupB == {<<1, "t1", "s2">>, <<2, "t2", "s1">>}
 Apart == [s \in SB |-> IF s = "s1" THEN 1 ELSE 2]
 Together == [s \in SB |-> 1]          \* both sensors at IDENTICAL coordinates (in one engine or in different engines)
-ObsInitD(Dups, site, ObsU) ==
+\* life = <<born, gone>> of sensor s2: <<0, 3>> there throughout, <<2, 3>> joins its engine before step 2 (after the
+\* first import), <<0, 2>> leaves it before step 2
+ObsInitD(Dups, site, ObsU, Lives) ==
   \E eng \in {{1}, {1, 2}} :
    \E imp \in {{}, {"t1"}}, obs \in SUBSET ObsU, so \in [SB -> eng],
       tr \in {f \in [eng -> SUBSET TB] : UNION {f[e] : e \in eng} = TB} :
-    \E dup \in SUBSET (obs \cap Dups) :
+    \E dup \in SUBSET (obs \cap Dups), life \in Lives :
      InitWith([agents |-> TB \cup SB, imported |-> imp, targets |-> TB, epochs |-> 1..2, rows |-> imp \X (1..2), obs |-> obs,
                dup |-> dup, schema |-> IF imp = {} THEN "minimal" ELSE "full", near |-> {},
-               nsteps |-> 2, born |-> [a \in TB \cup SB |-> 0], engines |-> eng, sensorOf |-> so, tracks |-> tr, site |-> site])
+               nsteps |-> 2, born |-> [a \in TB \cup SB |-> IF a = "s2" THEN life[1] ELSE 0],
+               gone |-> [a \in TB \cup SB |-> IF a = "s2" THEN life[2] ELSE 3], engines |-> eng, sensorOf |-> so, tracks |-> tr, site |-> site])
 
-ObsInitDup == ObsInitD(DupB, Apart, ObsB)
-ObsInitNoDup == ObsInitD({}, Apart, ObsB)
-ObsInitTogether == ObsInitD({}, Together, {1} \X TB \X SB)
-ObsInit == ObsInitDup \/ ObsInitTogether
+Stays == {<<0, 3>>}
+ObsInitDup == ObsInitD(DupB, Apart, ObsB, Stays)
+ObsInitNoDup == ObsInitD({}, Apart, ObsB, Stays)
+ObsInitTogether == ObsInitD({}, Together, {1} \X TB \X SB, Stays)
+\* a sensor that joins / leaves after the first import, with stored observations by it before and after the change
+ObsInitRoster == ObsInitD({}, Apart, {<<1, "t1", "s1">>, <<1, "t1", "s2">>, <<2, "t1", "s2">>, <<2, "t2", "s2">>},
+                          {<<2, 3>>, <<0, 2>>})
+ObsInit == ObsInitDup \/ ObsInitTogether \/ ObsInitRoster
 Both == {"full", "minimal"}
 MCInitQuick == EphInit(2, {"x1", "x2"}, Both) \/ EphInit(3, {"x1"}, {"full"}) \/ NearInit \/ ObsInit
 MCInitThorough == EphInit(2, {"x1", "x2"}, Both) \/ EphInit(4, {"x1"}, Both) \/ EphInit(3, {"x1", "x2"}, Both) \/ NearInit \/ ObsInit
